@@ -343,7 +343,21 @@ pub fn gen_c14(out: &mut dyn Write, seed: u64, thorough: bool) {
         let mut s: String = (0..len)
             .map(|_| if latin_only { char::from_u32(*rng.pick(&[0x20 + rng.0 as u32 % 0x5F, 0xA0 + (rng.0 >> 8) as u32 % 0x60])).unwrap() } else { rand_char(&mut rng) })
             .collect();
-        if rng.chance(1, 6) {
+        if rng.chance(1, 4) {
+            // macro envelope; half of the bodies are plain alphanumeric text (drives the C40 / Text /
+            // EDIFACT end-of-data branches inside the envelope)
+            if rng.chance(1, 2) {
+                let n = 4 + rng.below(18);
+                let class = rng.below(4);
+                s = (0..n)
+                    .map(|_| match class {
+                        0 => (b'a' + rng.below(26) as u8) as char,
+                        1 => (b'A' + rng.below(26) as u8) as char,
+                        2 => *rng.pick(&['A', 'Z', '0', '9', ' ', '*', '>']),
+                        _ => *rng.pick(&['a', 'b', '1', '2', 'Q', ' ', '-']),
+                    })
+                    .collect();
+            }
             let head = if rng.chance(1, 2) { "[)>\x1E05\x1D" } else { "[)>\x1E06\x1D" };
             s = match rng.below(4) {
                 0 | 1 => format!("{}{}\x1E\x04", head, s),
